@@ -149,7 +149,15 @@ pub fn gen_scope(t: &mut Tape) -> ScopeCase {
                 ctx = vec![name];
             }
             Plan::Ref => {
-                let e = if inject {
+                let e = if inject && crate::engine::gen_version() >= 2 && !declared.is_empty() && t.flip() {
+                    // v2: more leading dots than there are enclosing symbols, in front of a name that does exist
+                    // in a shallower scope: still an unknown symbol by the rules
+                    fault = Some("too-many-dots");
+                    let target = t.pick(&declared).clone();
+                    let k = ctx.len() + 1 + t.draw(2) as usize;
+                    let tail = if target.len() > 1 && t.flip() { target[target.len() - 2..].join(".") } else { target[target.len() - 1].clone() };
+                    E::Var(format!("{}{}", ".".repeat(k), tail))
+                } else if inject {
                     fault = Some("unknown-name");
                     E::Var(t.pick(&["nosuch", ".nosuch", "ga.nosuch", "...deep", "x"]).to_string())
                 } else if declared.is_empty() {
@@ -286,7 +294,7 @@ impl Property for C15 {
         "each case = a tree of labels and constants to depth 4 (names per level drawn from small pools so that local names repeat under different parents; constants open scopes like labels; \
          constant values are literals or other symbols + n in any declaration order) interleaved with `#d32 <reference>` items that name a declared symbol (also ones declared later) by a spelling \
          chosen from all valid ones (absolute dotted path, or k leading dots for any k up to the common prefix with the scope chain at the point of use), a quarter of the cases with one fault \
-         (unknown name, skipped nesting level, duplicate declaration). Oracle = R-SCOPE + R-LAYOUT: the reference resolves each reference and gives bits and symbol table, or rejects. \
+         (unknown name, a reference with more leading dots than enclosing symbols in front of an existing name, skipped nesting level, duplicate declaration). Oracle = R-SCOPE + R-LAYOUT: the reference resolves each reference and gives bits and symbol table, or rejects. \
          Metamorphic part: global address-free constants standing at scope-neutral positions are moved to the end/start of the file; the moved program must assemble to the same bits; \
          and runs of items that declare no global symbol are wrapped into selected #if / #else / #elif arms (dead arms hold decoys), which must give the same bits and symbol table. \
          Non-trivial = a name is declared under >= 2 parents and the case has >= 3 references; distinct by hash of the source."
@@ -299,7 +307,7 @@ impl Property for C15 {
         40_000
     }
     fn random_cases(&self, tier: Tier) -> u64 {
-        tier.pick(60_000, 800_000)
+        tier.pick(1_000_000, 5_000_000)
     }
     fn run(&self, t: &mut Tape, ctx: &mut CaseCtx) -> Verdict {
         let case = gen_scope(t);
